@@ -188,6 +188,20 @@ func vsObserve(store *Store, orig bpv7.Bundle, set []vsFrag) string {
 	return fmt.Sprintf("store %s %s %s %s %s", vsHex(vsPayload(orig)), vsTypes(orig), strings.Join(descs, ";"), able, res)
 }
 
+// vfSameInput compares the input part of two observation lines (operation, payload, block types, fragments).
+func vfSameInput(a, b string) bool {
+	fa, fb := strings.Fields(a), strings.Fields(b)
+	if len(fa) < 4 || len(fb) < 4 {
+		return false
+	}
+	for i := 0; i < 4; i++ {
+		if fa[i] != fb[i] {
+			return false
+		}
+	}
+	return true
+}
+
 func TestVerifC10(t *testing.T) {
 	outPath := os.Getenv("VERIF_OUT")
 	if outPath == "" {
@@ -237,7 +251,7 @@ func TestVerifC10(t *testing.T) {
 	r := &vsRng{s: seed*2654435761 + 1010}
 	count := map[string]int{}
 	emit := func(part, s string) {
-		if only != "" && s != only {
+		if only != "" && !vfSameInput(s, only) {
 			return
 		}
 		fmt.Fprintln(w, s)
